@@ -63,10 +63,18 @@ Definition tokenizer_functions_read_only_modelled_state : bool :=
 Definition tokenizer_functions_write_only_modelled_state : bool :=
   is_nil SV.Gen.GtTrees_gen.st_foreign_writes && is_nil SV.Gen.GtTrees_gen.st_table_mutation.
 
+(** The model takes the option vector as a parameter of every call; the class has seven public, settable attributes.  Faithful
+    only if every option the token functions consult is read from the public attribute at call time: [__init__] uses each option
+    parameter for nothing but the store into the attribute of the same name (no private attribute derived from an option, no
+    branch on it), and the options are plain instance attributes (translate/c02_gettoken.py [option_census]); that the three
+    functions read nothing but [self.<option>] is [tokenizer_functions_read_only_modelled_state]. *)
+Definition tokenizer_options_are_read_from_the_public_attribute_at_call_time : bool :=
+  is_nil SV.Gen.GtTrees_gen.st_cached_options.
+
 (** Example for [Props/C02.c02_property_as_written]: the objects generated from today's source satisfy every one of its
     hypotheses (default options, both modes) - the theorem is not vacuous for the code it is about. *)
 Definition c02_property_hypotheses_hold_for_todays_source : bool :=
-  allow_escapes default_opts
+  allow_escapes default_opts && SV.Gen.EscTables_gen.esc_pipeline_translated && escape_text_uses_no_state_outliving_the_call
   && forallb (fun ml => match single_sub gen_pipeline ml with Some e => nl_eqb e (excl gen_tables ml) | None => false end
                         && tbl_ok gen_tables ml) [false; true]
   && dq_not_operator gen_tables && trees_ok gen_trees && hs_rows_ok gen_hs_rows.
